@@ -160,14 +160,38 @@ pub fn history_lock_is_free(tree: &crate::AnyTree) -> bool {
 pub struct VersionDump {
     pub id: u64,
     pub levels: Vec<Vec<Vec<crate::Table>>>,
-    pub blob_files: Vec<crate::BlobFile>,
+    pub blob_files: Vec<BlobDump>,
     /// `(blob file id, len, bytes, on_disk_bytes)`, sorted by id
     pub gc_stats: Vec<(u64, usize, u64, u64)>,
 }
 
+/// Plain-data view of a blob file's metadata.
+#[derive(Clone, Debug)]
+pub struct BlobDump {
+    pub id: u64,
+    pub item_count: u64,
+    pub total_compressed_bytes: u64,
+    pub total_uncompressed_bytes: u64,
+    pub created_at: u128,
+    pub path: std::path::PathBuf,
+    pub checksum: u128,
+}
+
 fn dump_version(v: &crate::version::Version) -> VersionDump {
-    let mut blob_files: Vec<_> = v.blob_files.iter().cloned().collect();
-    blob_files.sort_by_key(crate::BlobFile::id);
+    let mut blob_files: Vec<_> = v
+        .blob_files
+        .iter()
+        .map(|b| BlobDump {
+            id: b.id(),
+            item_count: b.0.meta.item_count,
+            total_compressed_bytes: b.0.meta.total_compressed_bytes,
+            total_uncompressed_bytes: b.0.meta.total_uncompressed_bytes,
+            created_at: b.0.meta.created_at,
+            path: b.0.path.clone(),
+            checksum: b.0.checksum.into_u128(),
+        })
+        .collect();
+    blob_files.sort_by_key(|b| b.id);
     let mut gc_stats: Vec<_> = v
         .gc_stats()
         .iter()
